@@ -104,7 +104,7 @@ class Ctx:
 def _candidates(v):
     """Nearby exactly-representable values for a model value v (Fraction)."""
     out = []
-    for d in (1, 2, 8, 256, 65536):
+    for d in (1, 2, 8, 256, 65536, 1 << 30, 1 << 48):
         c = Fraction(round(v * d), d)
         if c not in out:
             out.append(c)
